@@ -195,9 +195,28 @@ def worker_main(argv):
         d['reach'] = reach.stop() if reach is not None else {}
     except Exception:
         d['reach'] = {}
+    try:
+        blob = pickle.dumps(d)
+    except Exception:
+        # something recorded as a coverage cell or a sample cannot be pickled (an instance of a class made on the fly): keep its text
+        blob = pickle.dumps(_plain(d))
     with open(out_path, 'wb') as f:
-        pickle.dump(d, f)
+        f.write(blob)
     return 0
+
+
+def _plain(x, depth=0):
+    if isinstance(x, (int, float, str, bool, type(None), bytes)) and type(x) in (int, float, str, bool, type(None), bytes):
+        return x
+    if depth > 8:
+        return show(x, 200)
+    if isinstance(x, dict):
+        return {(_plain(k, depth + 1) if not isinstance(k, str) else k): _plain(v, depth + 1) for k, v in x.items()}
+    if isinstance(x, (list, tuple)) and type(x) in (list, tuple):
+        return type(x)(_plain(v, depth + 1) for v in x)
+    if isinstance(x, (set, frozenset)) and type(x) in (set, frozenset):
+        return set(_plain(v, depth + 1) if isinstance(_plain(v, depth + 1), (int, float, str, bool, type(None), bytes, tuple)) else show(v, 200) for v in x)
+    return show(x, 200)
 
 
 # ------------------------------------------------------------------ parent side
@@ -272,10 +291,16 @@ def run_shards(check, specs, tier, jobs, inline=False):
                     else:
                         still.append((pr, i, spec, op, t0))
                     continue
+                loaded = False
                 if os.path.exists(op):
-                    with open(op, 'rb') as f:
-                        dumps.append(pickle.load(f))
-                else:
+                    try:
+                        with open(op, 'rb') as f:
+                            dumps.append(pickle.load(f))
+                        loaded = True
+                    except Exception as e:
+                        lost.append('shard %d (%s) left an unreadable result: %r' % (i, show(spec, 100), e))
+                        continue
+                if not loaded:
                     err = ''
                     try:
                         err = open(os.path.join(run_dir, 'err%d.txt' % i)).read()[-800:]
